@@ -280,6 +280,19 @@ case!(BothC: Both<Vec<u8>, u16, String>, make = |_s| both(), same = |a, b| eqs(&
       eps = |x, e| { let e: &Both<&[u8], u16, String> = e; eqs(&x.a, e.a) && eqs(&x.vb, &e.vb) },
       borrows = |e, out| { out.slice(e.a, 0); }, n = |_x| 1,
       alloc = |x| x.vb.len() * 2);
+// A primitive bound to a parameter (deserialized through its ε-copy method) in front of an
+// aligned sequence: the position bookkeeping of the primitive's ε-copy reader decides the
+// padding that follows (seeded change C02b: `bool` advanced the data but not the position).
+macro_rules! both_prim {
+    ($($name:ident, $f:ident: $t:ty),* $(,)?) => {$(
+        fn $f() -> Both<$t, u32, ()> { Both { a: any(), vb: vec_upto::<u32, 1>(), _p: PhantomData } }
+        case!($name: Both<$t, u32, ()>, make = |_s| $f(), same = |a, b| a.a == b.a && eqs(&a.vb, &b.vb),
+              eps = |x, e| { let e: &Both<$t, u32, ()> = e; x.a == e.a && eqs(&x.vb, &e.vb) },
+              alloc = |x| x.vb.len() * 4);
+    )*};
+}
+both_prim!(BothBool, both_bool: bool, BothU8, both_u8: u8, BothOptU8, both_optu8: Option<u8>, BothNzU8, both_nzu8: NonZeroU8,
+           BothChar, both_char: char, BothOptBool, both_optbool: Option<bool>);
 fn gen() -> Gen<Vec<u16>, 2> { Gen { a: vec_upto::<u16, 2>(), b: any() } }
 case!(GenC: Gen<Vec<u16>, 2>, make = |_s| gen(), same = |a, b| eqs(&a.a, &b.a) && a.b[0] == b.b[0] && a.b[1] == b.b[1],
       eps = |x, e| { let e: &Gen<&[u16], 2> = e; eqs(&x.a, e.a) && x.b[0] == e.b[0] && x.b[1] == e.b[1] },
